@@ -200,6 +200,37 @@ func (p *int32ptr) store(v int32) {
 	p.mu.Unlock()
 }
 
+// liveGeneric is parked once per instantiation: the runtime prints all of them as liveGeneric[...] at the same
+// file and line with the same number of top-level arguments, but with differently shaped values.
+//
+//go:noinline
+func liveGeneric[T any](k *knownG, ch chan int, v T) T {
+	k.record()
+	<-ch
+	return v
+}
+
+type livePair struct{ a, b int }
+
+//go:noinline
+func liveGenericEntry[T any](w *liveWorld, k *knownG, ch chan int, v T) {
+	defer w.wg.Done()
+	liveGeneric(k, ch, v)
+}
+
+//go:noinline
+func liveSpawnGeneric[T any](w *liveWorld, ch chan int, v T) {
+	k := &knownG{Kind: "generic", Allowed: []string{"chan receive"}, ready: make(chan struct{})}
+	w.known = append(w.known, k)
+	w.wg.Add(1)
+	k.SpawnerGID = curGID()
+	pcs := make([]uintptr, 4)
+	n := runtime.Callers(1, pcs)
+	fr, _ := runtime.CallersFrames(pcs[:n]).Next()
+	k.SpawnerFn = fr.Function
+	go liveGenericEntry(w, k, ch, v)
+}
+
 type liveT struct{ n int }
 
 //go:noinline
@@ -285,6 +316,15 @@ func startLive(rr *core.Rand) *liveWorld {
 	t := &liveT{n: 3}
 	add("method", []string{"chan receive"}, func(k *knownG) { t.Method(k, chm, 42, "hello", []int{1, 2, 3}) })
 	w.release = append(w.release, func() { close(chm) })
+	// identical stacks and creators, differently shaped arguments: all go through one generic spawner
+	chg := make(chan int)
+	liveSpawnGeneric(w, chg, livePair{1, 2})
+	liveSpawnGeneric(w, chg, 7)
+	liveSpawnGeneric(w, chg, "str")
+	liveSpawnGeneric(w, chg, [3]int{1, 2, 3})
+	liveSpawnGeneric(w, chg, livePair{3, 4})
+	liveSpawnGeneric(w, chg, uintptr(9))
+	w.release = append(w.release, func() { close(chg) })
 	for _, k := range w.known {
 		<-k.ready
 	}
@@ -360,6 +400,24 @@ func liveEvalDump(r *core.Run, c *liveCase) {
 	}
 	if len(rem) != 0 || pfx.Len() != 0 {
 		report("remainder", fmt.Sprintf("runtime dump leaves prefix %q remainder %q", b2s(pfx.Bytes(), 200), b2s(rem, 200)))
+		return
+	}
+	// the snapshot of a live process must aggregate at every level (the handler does just that)
+	var aggPanic any
+	func() {
+		defer func() { aggPanic = recover() }()
+		for _, lvl := range allLevels {
+			n := 0
+			for _, b := range s.Aggregate(lvl).Buckets {
+				n += len(b.IDs)
+			}
+			if n != len(s.Goroutines) {
+				aggPanic = fmt.Sprintf("bucket sizes add up to %d of %d goroutines", n, len(s.Goroutines))
+			}
+		}
+	}()
+	if aggPanic != nil {
+		report("aggregate", fmt.Sprintf("aggregating the live snapshot failed: %v", aggPanic))
 		return
 	}
 	hs := rawHeaders(c.Raw)
